@@ -13,6 +13,10 @@ import RV.Gen.C10Janus
   int64 range is `none`; the theorems say: if the forward leg is defined, so is the
   backward leg, and it returns the initial integer state exactly.
 
+  The step as seen from outside (recalculation flag, `N_allocated`) is modelled too; that nothing but
+  part1 sets the flag is a theorem over the extracted list of assignments, and that the force sees
+  `to_double(p_int)` for every particle at every stage is validated on the real code by the check.
+
   Tables.  The palindrome hypothesis is discharged for every table of
   RV/Gen/C10Janus.lean (regenerated from the C source on every run), with the
   index function `gg` tied to the compiled C function (and to its text where parseable).
